@@ -5,6 +5,7 @@
 # exit 0 = held, 1 = violation (VIOLATION line printed), 2 = inconclusive.
 set -u
 HERE="$(cd "$(dirname "$0")" && pwd)"
+if [ "${1:-}" = "replay" ] && [ -n "${2:-}" ]; then REPLAY_FILE="$(readlink -f "$2")"; fi
 export CARGO_NET_OFFLINE=true
 export JSV_VERIF_DIR="$HERE"
 cd "$HERE/harness" || exit 2
@@ -18,7 +19,7 @@ fi
 rm -f "$LOG"
 BIN="$HERE/harness/target/release/jsv"
 if [ "${1:-}" = "replay" ]; then
-	exec "$BIN" replay "$2"
+	exec "$BIN" replay "$REPLAY_FILE"
 fi
 ID="${1:?property id}"
 TIER="${2:-${VERIF_TIER:-quick}}"
